@@ -410,7 +410,7 @@ def coverage_guided(ctx):
         r = FacetResult('coverage-guided')
         r.notes.append('coverage-guided campaign runs in the thorough tier only')
         return r
-    return fuzz.campaign('coverage-guided', 'pel', seed_corpus(ctx.seed), runs=400000, seed=ctx.seed, jobs=6,
+    return fuzz.campaign('coverage-guided', 'pel', seed_corpus(ctx.seed), runs=250000, seed=ctx.seed, jobs=6,
                          with_O=True, sig_prefix='C05.fuzz')
 
 
